@@ -10,3 +10,10 @@ def gen():
     err = router_check.gen()
     if err:
         raise RuntimeError(err)
+
+
+def setup():
+    """router-core runners shared by C01 C02 C03 C05 C10 C11 C12 C13 C18 C20"""
+    import router_build
+    router_build.build_model()
+    router_build.build_harness()
